@@ -99,6 +99,8 @@ func ParseRcpt(addr string) RcptF {
 	if at < 0 {
 		return f
 	}
+	// the fault fields are read from the local part as the client spelled it; the spelling suffix of the <n> field
+	// (upper case, NFD, a space, ...) is not looked at
 	p := strings.Split(addr[:at], "-")
 	if len(p) < 4 || len(p[0]) < 2 || p[0][0] != 'r' || len(p[1]) != 1 {
 		return f
@@ -446,8 +448,8 @@ func Rewrite(addr string) string {
 		return addr
 	}
 	p := strings.Split(addr[:at], "-")
-	dom := addr[at+1:]
-	if len(p) != 6 || len(p[0]) < 2 || p[0][0] != 'r' || len(dom) != len("d0.example") || dom[0] != 'd' || dom[1] < '0' || dom[1] > '2' || dom[2:] != ".example" {
+	j := DomIdx(addr[at+1:])
+	if len(p) != 6 || len(p[0]) < 2 || p[0][0] != 'r' || j < 0 {
 		return addr
 	}
 	lp := strings.Join(p[:5], "-")
@@ -458,7 +460,19 @@ func Rewrite(addr string) string {
 	default:
 		return addr
 	}
-	return fmt.Sprintf("%s@d%d.example", lp, (int(dom[1]-'0')+1)%3)
+	return fmt.Sprintf("%s@d%d.example", lp, (j+1)%3)
+}
+
+// DomIdx is the index j of a routed domain in the form the endpoint hands to the pipeline (lower case, U-label):
+// d<j>.example or its second name dé<j>.example, with or without the trailing dot of an absolute name; -1 otherwise.
+func DomIdx(dom string) int {
+	dom = strings.TrimSuffix(dom, ".")
+	for j := 0; j < 3; j++ {
+		if dom == fmt.Sprintf("d%d.example", j) || dom == fmt.Sprintf("d\u00e9%d.example", j) {
+			return j
+		}
+	}
+	return -1
 }
 
 func (s *modState) RewriteBody(ctx context.Context, h *textproto.Header, b buffer.Buffer) error {
